@@ -245,8 +245,8 @@ PROPS["C18"] = {
 
 PROPS["C04"] = {
     "level": "other",
-    "technique": "Verus contract on the extracted QueryEngine::extract_time_from_expr over a DataFusion Expr shim (every timestamp the WHERE clause may accept lies inside the extracted bounds: comparisons in either operand order, =, BETWEEN / NOT BETWEEN, AND, OR at every depth) and on the default handling of extract_time_range (time_range_defaults, has_time_predicate, node_has_time_predicate, mentions_time_column: only a statement without any time predicate is narrowed to the last hour); composed with the exact chunk lookup (C07) and sound statistics pruning (C12)",
-    "verus": ["c04_timebounds.rs.in", "c07_local.rs.in", "c07_s3.rs.in", "c12_pruning.rs.in", "c04_registration.rs.in"],
+    "technique": "Verus contract on the extracted QueryEngine::extract_time_from_expr over a DataFusion Expr shim (every timestamp the WHERE clause may accept lies inside the extracted bounds: comparisons in either operand order, =, BETWEEN / NOT BETWEEN, AND, OR at every depth) and on the default handling of extract_time_range (time_range_defaults, has_time_predicate, node_has_time_predicate, mentions_time_column: only a statement without any time predicate is narrowed to the last hour); Verus contract on the body of QueryNode::query_for_tenant between the metadata lookup and the answer (the statement is evaluated over exactly the chunks the lookup returned, the byte count is theirs); composed with the exact chunk lookup (C07) and sound statistics pruning (C12)",
+    "verus": ["c04_timebounds.rs.in", "c07_local.rs.in", "c07_s3.rs.in", "c12_pruning.rs.in", "c04_registration.rs.in", "c04_query.rs.in"],
     "kani": ["c12_leaves"],
     "explanation": "C04 is decided only for the three pruning stages cardinalsin itself implements: (1) the extracted time range over-approximates the accepted timestamps (proved; a window side the extractor cannot read stays unbounded whenever the statement has a time predicate at all -- units has_time_predicate / node_has_time_predicate / mentions_time_column / time_range_defaults, defect F10b repaired; a statement with no time predicate anywhere gets the product default 'last hour' and is outside the property's family), (2) the chunk lookup returns exactly the chunks meeting the range (C07 units), (3) statistics pruning never drops a chunk that can contain a matching row (C12 units). That DataFusion evaluates the SQL correctly on the registered files, per-query table registration and adaptive-index independence are assumed, not verified; convert_expr_to_predicate is not under contract yet.",
     "assumptions": [
@@ -259,11 +259,11 @@ PROPS["C04"] = {
 
 PROPS["C11"] = {
     "level": "other",
-    "technique": "Verus call-site frame obligations on the extracted QueryEngine entry points that take user SQL (plan_read_only_sql_locked, plan_read_only_sql, the planning step of with_metrics_table, execute, execute_planned, execute_with_indexes and the collect of execute_planned_with_indexes, execute_stream, analyze, prepare and the planning statements of extract_time_range, extract_column_predicates): user SQL reaches the engine only through sql_with_options with DDL, DML and statements disallowed, and only read-only frames are run",
+    "technique": "Verus call-site frame obligations on the extracted QueryEngine entry points that take user SQL (plan_read_only_sql_locked, plan_read_only_sql, the planning step of with_metrics_table, execute, execute_planned, execute_with_indexes and the collect of execute_planned_with_indexes, execute_stream, analyze, prepare and the planning statements of extract_time_range, extract_column_predicates): user SQL reaches the engine only through sql_with_options with DDL, DML and statements disallowed, and only read-only frames are run; the per-query binding of `metrics` that every statement performs keeps its bookkeeping invariant on every exit (unit register_metrics_table_for_chunks_locked of c04_registration), so a statement does not change what a later statement is answered over",
     "frame_scans": [{"file": "src/query/engine.rs", "patterns": [".sql(", ".sql_with_options(", ".execute_logical_plan(", ".state().create_logical_plan("],
                      "allowed_units": ["plan_read_only_sql_locked"],
                      "message": "user SQL may reach the embedded engine only through plan_read_only_sql_locked (the one place that plans with DDL / DML / statements disallowed)"}],
-    "verus": ["c11_readonly.rs.in"],
+    "verus": ["c11_readonly.rs.in", "c04_registration.rs.in"],
     "explanation": "The deciding semantics live inside DataFusion: it is ASSUMED that SessionContext::sql_with_options with DDL, DML and statements disallowed returns an error for every plan that is not a read-only query and performs no write, while SessionContext::sql gives no such guarantee. Under that dependency contract each entry point is proved to leave storage, catalog and session bindings unchanged for every SQL string; a call site that goes back to ctx.sql or relaxes an option fails its frame obligation. HTTP / Flight / Prometheus handlers are covered because they all funnel into these entry points (not checked mechanically).",
     "assumptions": [
         "DataFusion honours SQLOptions (verify_plan rejects DDL, DML incl. COPY, and statements, also under EXPLAIN)",
